@@ -1,4 +1,4 @@
-SOURCE_COMMITS = []
+SOURCE_COMMITS = ["07ddec9"]
 
 NOTE_COMMON = ("Trusted: Lean kernel + axioms {propext, Classical.choice, Quot.sound}; the model<->code tie is "
                "checked per run (differential correspondence + regenerated facts), not proved; Go runtime. ")
@@ -72,6 +72,15 @@ CHECKS = {
              "and carries the maximal distance found. The threshold guarantee and idempotence are evaluated per run in exact rational arithmetic against "
              "Go's output, with the Lean Float mirror reproducing Go's indexes bit for bit.",
         note=NOTE_COMMON + "Partial: 'every omitted point within threshold' and idempotence are oracle-checked, not proved.",
+    ),
+    "C10": dict(
+        technique="Lean 4 theorems over ordered commutative rings (determinant identities, antisymmetry, cyclic invariance, filter exits, integer-grid exactness) + bit-exact correspondence of the filter stage (verif hook) + exact rational sign oracle",
+        text="Theorems: filter and fallback evaluate the same polynomial (C10_det_forms_agree); the sign is antisymmetric and cyclically invariant and zero iff the "
+             "points are exactly collinear (C10_antisymmetric, C10_cyclic, C10_collinear_iff); every deciding exit of the filter returns the sign of the "
+             "determinant it computed, for any arithmetic (C10_filter_decides_sign); on integer grids up to 2^25 all intermediates are exact (C10_grid_exact). "
+             "Each run compares the filter stage bit for bit with the Lean Float mirror, and bigxy/xy OrientationIndex with the exact rational sign on the "
+             "whole 5x5 grid and on nearly collinear float triples.",
+        note=NOTE_COMMON + "Partial: 'an accepting filter verdict on arbitrary floats is the exact sign' (Shewchuk bound) is oracle-checked, not proved.",
     ),
 }
 
